@@ -188,4 +188,64 @@ def freshPair (dflt : α) (pos1 pos2 : Nat → Option β) (k : Nat × Nat) : WMa
 
 end Keyed
 
+/-! ## 3-D `contact_manifold_capsule_capsule` (`contact_manifolds_capsule_capsule.rs`, `dim3`)
+
+Closed form, ONE contact: the closest points of the two axes (`closest_points_segment_segment_with_locations_nD`, the
+same generic source as in 2-D), the normal `Unit::try_new(p2 − p1, EPSILON).unwrap_or(y)`, witnesses pushed out by the
+radii.  No warm start (the previous manifold only matters through `points[0].copy_geometry_from`). -/
+
+/-- the parameters `(s, t)` of `closest_points_segment_segment_with_locations_nD` (3-D instance) -/
+def segSegParams3 (ulps : K → K → Bool) (a1 b1 a2 b2 : V3 K) : K × K :=
+  let d1 := b1.sub a1
+  let d2 := b2.sub a2
+  let r := a1.sub a2
+  let a := d1.normSq
+  let e := d2.normSq
+  let f := d2.dot r
+  if a ≤ epsilon ∧ e ≤ epsilon then (0, 0)
+  else if a ≤ epsilon then (0, clamp01 (f / e))
+  else
+    let c := d1.dot r
+    if e ≤ epsilon then (clamp01 (-c / a), 0)
+    else
+      let b := d1.dot d2
+      let ae := a * e
+      let bb := b * b
+      let denom := ae - bb
+      let s := if epsilon < denom ∧ !(ulps ae bb) then clamp01 ((b * f - c * e) / denom) else 0
+      let t := (b * s + f) / e
+      if t < 0 then (clamp01 (-c / a), 0)
+      else if 1 < t then (clamp01 ((b - c) / a), 1)
+      else (s, t)
+
+/-- `seg.a * bcoords[0] + seg.b.coords * bcoords[1]` -/
+def baryPoint3 (a b : V3 K) (bc : K × K) : V3 K := (a.smul bc.1).add (b.smul bc.2)
+
+/-- `Unit::try_new(v, min_norm)` -/
+def tryNew3 (v : V3 K) (minNorm : K) : Option (V3 K) :=
+  let sqn := v.normSq
+  if minNorm * minNorm < sqn then some (v.sdiv (Num.sqrt sqn)) else none
+
+/-- closest points of the two axes (frame of capsule 1) and the contact normal -/
+def capsuleAxisPoints3 (ulps : K → K → Bool) (a1 b1 a2' b2' : V3 K) : V3 K × V3 K × V3 K :=
+  let st := segSegParams3 ulps a1 b1 a2' b2'
+  let lp1 := baryPoint3 a1 b1 (bcoords st.1)
+  let lp21 := baryPoint3 a2' b2' (bcoords st.2)
+  let n1 : V3 K := match tryNew3 (lp21.sub lp1) epsilon with | some n => n | none => ⟨0, 1, 0⟩
+  (lp1, lp21, n1)
+
+/-- `contact_manifold_capsule_capsule(pos12, capsule1, capsule2, prediction, manifold)` (3-D), geometry. -/
+def capsuleCapsule3 (ulps : K → K → Bool) (pos12 : Iso3 K) (a1 b1 : V3 K) (r1 : K) (a2 b2 : V3 K) (r2 pred : K)
+    (m : Manifold3 K) : Manifold3 K :=
+  let ax := capsuleAxisPoints3 ulps a1 b1 (pos12.act a2) (pos12.act b2)
+  let lp1 := ax.1
+  let lp21 := ax.2.1
+  let n1 := ax.2.2
+  let dist := (lp21.sub lp1).dot n1 - r1 - r2
+  if dist ≤ pred then
+    let n2 := pos12.invRot n1.neg
+    let c : Contact3 K := ⟨lp1.add (n1.smul r1), (pos12.invAct lp21).add (n2.smul r2), dist⟩
+    ⟨setFirst c m.points, n1, n2⟩
+  else m.clear
+
 end C14
